@@ -6,6 +6,7 @@ import (
 	"io"
 	"math"
 	"net/netip"
+	"os"
 	"regexp"
 	"slices"
 	"strconv"
@@ -812,6 +813,44 @@ var rtSymptoms = []symptom{
 		}
 		return false
 	})},
+	// Third face of the same analyzer defect: the doubly wrapped name=name=T that
+	// it creates shows up inside the types of a later error message although no
+	// such type exists in the case.
+	{"C02/zson/typedef-value-under-enclosing-cast-mishandled", func(f *rtFail, c RTCase) (int, bool) {
+		if f.kind != "parse-error" {
+			return 0, false
+		}
+		var texts []string
+		if x, u, ok := notInUnionTypes(f.err); ok {
+			texts = []string{x, u}
+		} else if m := conflictRE.FindStringSubmatch(f.err); m != nil {
+			for _, q := range m[1:] {
+				if t, err := strconv.Unquote(q); err == nil {
+					texts = append(texts, t)
+				}
+			}
+		}
+		doubled := func(t zed.Type) bool {
+			n, ok := t.(*zed.TypeNamed)
+			if !ok {
+				return false
+			}
+			in, ok := n.Type.(*zed.TypeNamed)
+			return ok && in.Name == n.Name
+		}
+		inMessage := false
+		zctx := zed.NewContext()
+		for _, text := range texts {
+			if t, err := zson.ParseType(zctx, text); err == nil {
+				walkTypes(t, func(t zed.Type) { inMessage = inMessage || doubled(t) })
+			}
+		}
+		inCase := false
+		for _, v := range c.Seq.Vals {
+			walkValueTypes(c.Seq.Zctx, v, func(t zed.Type) { inCase = inCase || doubled(t) })
+		}
+		return -1, inMessage && !inCase
+	}},
 	// The analyzer converts a decorator before the value it decorates, so
 	// typedefs take effect in another order than they have in the text: a name
 	// defined inside the value is not yet visible in its decorator (`no such
@@ -871,13 +910,20 @@ func decide(c RTCase, ladder []neutraliser, symptoms []symptom, o *vt.Outcome) {
 	fail := c.check()
 	cur := c
 	next := 0
+	trace := func(format string, args ...any) {
+		if os.Getenv("C02_TRACE") != "" {
+			fmt.Fprintf(os.Stderr, "C02_TRACE "+format+"\n", args...)
+		}
+	}
 	failf := func(sig string) {
 		o.Fail = vt.Failf(sig, "[%s value %d: %s] %s", fail.mode, fail.idx, fail.kind, fail.msg)
 	}
 loop:
 	for fail != nil {
+		trace("failure [%s value %d: %s] %s", fail.mode, fail.idx, fail.kind, clip(fail.msg))
 		for _, s := range symptoms {
 			if drop, ok := s.match(fail, cur); ok {
+				trace("symptom %s (drop %d)", s.sig, drop)
 				if !vt.IsKnown(s.sig) {
 					failf(s.sig)
 					return
@@ -903,6 +949,7 @@ loop:
 			}
 			validateSeq(nc.Seq)
 			r := nc.check()
+			trace("neutraliser %s applied", n.sig)
 			if r == nil || r.locus() != fail.locus() {
 				if !vt.IsKnown(n.sig) {
 					failf(n.sig)
@@ -1209,13 +1256,22 @@ var propNonNFC = &vt.Prop[RTCase]{
 // "member null of (int64,null)" and the null union value are both written
 // `null((int64,null))`.
 func nullMemberToNullUnion(v zed.Value) zed.Value {
-	return rebuild(v, func(typ zed.Type, body zcode.Bytes, parent zed.Type) (zcode.Bytes, bool) {
-		if u, ok := typ.(*zed.TypeUnion); ok && body != nil {
+	// nullish: null, or a union value whose selected member is (recursively) nullish
+	var nullish func(typ zed.Type, body zcode.Bytes) bool
+	nullish = func(typ zed.Type, body zcode.Bytes) bool {
+		if body == nil || typ == zed.TypeNull {
+			return true
+		}
+		if u, ok := zed.TypeUnder(typ).(*zed.TypeUnion); ok {
 			it := body.Iter()
 			tag := int(zed.DecodeInt(it.Next()))
-			if u.Types[tag] == zed.TypeNull || it.Next() == nil {
-				return nil, true
-			}
+			return nullish(u.Types[tag], it.Next())
+		}
+		return false
+	}
+	return rebuild(v, func(typ zed.Type, body zcode.Bytes, parent zed.Type) (zcode.Bytes, bool) {
+		if _, ok := zed.TypeUnder(typ).(*zed.TypeUnion); ok && body != nil && nullish(typ, body) {
+			return nil, true
 		}
 		return nil, false
 	})
